@@ -491,8 +491,9 @@ def huge_track(rng, npts):
     if len(missing):
         probs.append(('a segment produced no piece at all',
                       {'segments': missing[:5].tolist(), 'n_missing': int(len(missing)), **desc}))
-    # segments are at most a few km long: straight line == geodesic to 1e-7
-    bad = np.flatnonzero((count > 0) & ((sums < integ * (1 - 1e-9)) | (sums > integ * (1 + 1e-5))))
+    # segments are at most a few km long (straight line == geodesic to 1e-7), except the one
+    # bridging the data gap (about 170 km: excess up to a few 1e-5 at higher latitudes)
+    bad = np.flatnonzero((count > 0) & ((sums < integ * (1 - 1e-9)) | (sums > integ * (1 + 1e-4))))
     if len(bad):
         b = int(bad[0])
         probs.append(('pieces of a segment add up to less than the segment\'s value'
@@ -501,7 +502,7 @@ def huge_track(rng, npts):
                       {'segment': b, 'value': float(integ[b]), 'sum_of_pieces': float(sums[b]),
                        'n_bad': int(len(bad)), **desc}))
     tot_in, tot_out = float(integ.sum()), float(vals.sum())
-    if not (tot_in * (1 - 1e-9) <= tot_out <= tot_in * (1 + 1e-5)):
+    if not (tot_in * (1 - 1e-9) <= tot_out <= tot_in * (1 + 1e-4)):
         probs.append(('gridded total differs from the trajectory total',
                       {'total_in': tot_in, 'total_out': tot_out, **desc}))
     # first piece of every segment lies in the cell of the segment's start point, the last
